@@ -32,7 +32,8 @@ RULE = ('certificate hierarchies of depth 1..4 (ECDSA P-256 and RSA-2048 keys) u
         '(timeout / Nack), unsigned element, missing key locator, key-locator loop, foreign hierarchy}; anchors that do not '
         'match the roots of trust or are not self-signed; histories of 2-4 validations over 2-3 validator instances (default '
         'and explicit storages) in every order; distinct = (depth, key types, deviation, link) resp. (history order); '
-        'non-trivial = every case')
+        'non-trivial = every case; histories on one instance: a key locator naming a never-issued certificate of an already '
+        'validated key, 3-12 validations in flight at once on a cold cache, anchor passed as a buffer the caller reuses afterwards')
 
 C = lambda s: rc.comp(8, s)   # noqa
 SITE = [C(b'site')]
@@ -454,13 +455,101 @@ def check_histories(ctx, rng):
                 ctx.event('order-dependent-verdict')
 
 
+def leaf_under(rng, H, lvl, tag):
+    """One more key at level lvl (its certificate issued by level lvl-1 of H)  -> (key, cert name, cert wire)"""
+    k = Key(rng, 'ec', SITE + [C(b'l%d' % lvl), C(b'id' + tag), C(b'KEY'), C(b'k' + tag)])
+    iss = H.keys[lvl - 1]
+    name, wire = derive_cert(k.name, 'iss', k.pub, iss.signer(H.cert_names[lvl - 1]), START, 10 * 365 * 86400)
+    return k, [bytes(c) for c in name], bytes(wire)
+
+
+def check_same_instance(ctx, rng):
+    """Histories on ONE validator instance: what it validated (and cached) before must not change a later verdict; several
+    validations in flight at once; the anchor buffer is the caller's and may be reused after construction."""
+    for hi in range(ctx.n(12, 600)):
+        depth = rng.randint(1, 3)
+        H = Hierarchy(rng, depth, 'cc%02x' % rng.getrandbits(8))
+        served = {tuple(n): w_ for n, w_ in zip(H.cert_names[1:], H.cert_wires[1:])}
+        leaf = H.keys[depth]
+        real = H.cert_names[depth]
+        good = H.data(rng, b'good%d' % hi)
+        # signed with the real private key, but the key locator names another certificate of that key (other issuer / version)
+        # which was never issued and cannot be retrieved: no chain packet -> named certificate -> anchor exists
+        ghost = real[:-2] + [C(b'other-ca'), rc.comp(0x36, b'\x09')]
+        bad_locator = H.data(rng, b'ghost%d' % hi, signer=leaf.signer(ghost))
+        forged = flip_sig(H.data(rng, b'forged%d' % hi))
+        # more signers below the last but one level (cold cache: every one needs its own certificate fetch)
+        par = []
+        nleaf = [9, 3, 12, 10][(hi // 4) % 4]
+        for j in range(nleaf):
+            k, cn, cw = leaf_under(rng, H, depth, b'p%02d' % j)
+            served[tuple(cn)] = cw
+            w_ = bytes(make_data(SITE + [C(b'data'), C(b'par%d' % j)], MetaInfo(), b'c', k.signer(cn)))
+            par.append((w_ if j != 1 else flip_sig(w_), j != 1))
+        plan = ['good-then-ghost', 'ghost-then-good', 'parallel-first', 'parallel-after-good'][hi % 4]
+        anchor_form = ['bytes', 'bytearray-reused', 'memoryview-reused'][hi % 3]
+        res = {}
+
+        async def main(S):
+            face = RecFace()
+            the_app = appv1.NDNApp(face=face, keychain=KeychainDigest())
+            main_task = asyncio.ensure_future(the_app.main_loop())
+            await asyncio.sleep(0)
+            srv = CertServer(face)
+            srv.served = served
+            checker = Checker(compile_lvs(schema_text(depth)), {})
+            buf = bytearray(H.cert_wires[0])
+            arg = bytes(buf) if anchor_form == 'bytes' else buf if anchor_form == 'bytearray-reused' else memoryview(buf)
+            v = lvs_validator(checker, the_app, arg, MemoryKeyStorage() if hi % 2 else None) if hi % 2 else lvs_validator(checker, the_app, arg)
+            if anchor_form != 'bytes':
+                buf[:] = bytes(len(buf))         # the caller reuses its buffer after the validator has been built
+            out = []
+
+            async def one(label, wire, exp):
+                try:
+                    ok = await asyncio.wait_for(validate(v, wire), 120)
+                except Exception as e:   # noqa
+                    ok = e
+                out.append((label, ok, exp))
+            seq = {'good-then-ghost': [('good', good, True), ('ghost-locator', bad_locator, False), ('forged', forged, False), ('good-again', good, True)],
+                   'ghost-then-good': [('ghost-locator', bad_locator, False), ('good', good, True), ('ghost-locator-again', bad_locator, False)],
+                   'parallel-first': [], 'parallel-after-good': [('good', good, True)]}[plan]
+            for label, wire, exp in seq:
+                await one(label, wire, exp)
+            if plan.startswith('parallel'):
+                await asyncio.gather(*[one(f'parallel-{j}', w_, exp) for j, (w_, exp) in enumerate(par)])
+                await one('ghost-locator', bad_locator, False)
+            res['out'] = out
+            res['requests'] = len(srv.requests)
+            the_app.shutdown()
+            await asyncio.wait_for(main_task, 5)
+        S = vtime.run(main)
+        w = {'plan': plan, 'anchor_form': anchor_form, 'depth': depth, 'parallel_signers': nleaf}
+        ctx.case(('same-instance', plan, anchor_form, depth, nleaf), nontrivial=True)
+        ctx.event('same-instance-history')
+        ctx.event('same-instance-' + plan)
+        ctx.event('anchor-form-' + anchor_form)
+        if S.result != 'ok':
+            ctx.report(f'same-instance-{S.result}', f'{S.error!r}', w)
+            continue
+        for (label, ok, exp) in res['out']:
+            w2 = dict(w, step=label, expected=exp, results=[(a, repr(b)) for a, b, c in res['out']])
+            if isinstance(ok, BaseException):
+                ctx.report(f'same-instance-validator-raises:{type(ok).__name__}', f'{label}: {ok!r}', w2)
+            elif ok != exp:
+                kind = label.split('-')[0] if not label.startswith('ghost') else 'ghost-locator'
+                ctx.report(f'same-instance:{"accepted-without-valid-chain" if ok else "valid-chain-rejected"}:{kind}' + (':anchor-buffer-reused' if (anchor_form != 'bytes' and not ok) else ''),
+                           f'{label}: validator said {ok}, expected {exp} (plan {plan}, anchor given as {anchor_form})', w2)
+
+
 def run(ctx):
     ctx.rule = RULE
     rng = ctx.rng
+    check_same_instance(ctx, rng)
     check_single(ctx, rng)
     check_anchor(ctx, rng)
     check_histories(ctx, rng)
-    need = ['verdict-accept', 'verdict-reject', 'history-run', 'anchor-ok', 'anchor-wrong-name'] + ['deviation-' + d for d in set(DEVIATIONS)]
+    need = ['verdict-accept', 'verdict-reject', 'history-run', 'anchor-ok', 'anchor-wrong-name', 'same-instance-history'] + ['deviation-' + d for d in set(DEVIATIONS)]
     for k in need:
         ctx.need_event(k)
     ctx.assumptions = ['RSA/ECDSA links only (the cascade checker dispatches only these); validity periods are not part of the statement',
